@@ -18,9 +18,9 @@ func init() {
 		Rule: "cases: ordered pairs (A,B) of manifest sets, B = A after 1-3 edits (rule/port/CIDR/except edits that move the ipBlock partition, added/removed/renamed/re-kinded workloads, added/removed policies, relabelling, ANP edits) or an unrelated world; " +
 			"list(A), list(B), diff(A,B), diff(B,A), diff(A,A) are recorded from the real library; for every ordered workload pair and every (workload, address atom, direction) - atoms induced by the range boundaries of both reports and of all diff entries - the number of covering diff entries, their type, both connection values and the new/lost flags are compared with what (c1,c2, workload presence) determine; " +
 			"non-trivial = the diff has >= 2 non-empty categories or the two reports partition the address space differently; distinct = hash of both worlds",
-		Assumptions: []string{"list(A) and list(B) are the reference (their own correctness is C01/C02's subject)", "the reserved peer name ingress-controller is never used for a real workload"},
-		NumCases:    func(tier string, _ int64) int { return tierN(tier, 700, 30000) },
-		Run:         runC04,
+		Assumptions:       []string{"list(A) and list(B) are the reference (their own correctness is C01/C02's subject)", "the reserved peer name ingress-controller is never used for a real workload"},
+		NumCases:          func(tier string, _ int64) int { return tierN(tier, 700, 30000) },
+		Run:               runC04,
 		MinNonTrivial:     150,
 		MinEffectiveShare: 0.4,
 		RequiredEvents: map[string]int64{"points_checked": 20000, "entries_added": 50, "entries_removed": 50, "entries_changed": 50, "entries_unchanged": 200,
